@@ -662,4 +662,5 @@ func runC08(c *Ctx) {
 	c08Det(c)
 	c08DetSrc(c)
 	c08Ent(c)
+	c08E2E(c)
 }
